@@ -431,3 +431,7 @@ def _special_param_index(pop, n_ids):
         t0 += ref.pop_n_par(p, n_ids)
         d0 += nd
     return out
+
+
+RULE += (' Classes and clauses added in later rounds of the seeded-change protocol (DESIGN 9.4) are named in REQUIRED '
+         'and in seeded/HISTORY.json; the evidence counts every one of them under classes.')
